@@ -1247,28 +1247,46 @@ def c03_tree(d, state=b"S"):
 
 
 class FaultInjector:
-    """counts OS accesses below <root>/<pid>; applies the scheduled faults"""
+    """counts OS accesses (opens, reads, readlinks, listdirs, stats) below <root>/<any pid>; applies the scheduled
+    faults.  A fault on the target's own files is the property's "vanish / zombie / deny just before access k"; a fault
+    on another process's files (its parent, a listed child) removes or denies THAT process."""
 
     def __init__(self, root, plan):
         self.root, self.plan = root, dict(plan)      # {k: 'vanish' | 'deny' | 'zombie'}
         self.k = 0
         self.prefix = os.path.join(root, str(C03_PID))
         self.gone = False
+        self.touched_pids = set()
 
-    def hit(self, path):
+    def _pid_dir(self, p):
+        rel = os.path.relpath(p, self.root)
+        head = rel.split(os.sep, 1)[0]
+        return (os.path.join(self.root, head), int(head)) if head.isdigit() else (None, None)
+
+    def hit(self, path, reading=False):
         try:
             p = os.fsdecode(path)
         except Exception:
             return None
-        if not (p == self.prefix or p.startswith(self.prefix + "/")):
+        if not p.startswith(self.root + os.sep):
             return None
+        pdir, pid = self._pid_dir(p)
+        if pdir is None:
+            return None
+        own = pid == C03_PID
         k = self.k
         self.k += 1
         f = self.plan.get(k)
-        if f == "vanish" and not self.gone:
-            shutil.rmtree(self.prefix, ignore_errors=True)
-            self.gone = True
-        elif f == "zombie" and not self.gone:
+        if f is None:
+            return None
+        self.touched_pids.add(pid)
+        if f == "vanish" and not (own and self.gone):
+            shutil.rmtree(pdir, ignore_errors=True)
+            if own:
+                self.gone = True
+            if reading:
+                raise ProcessLookupError(3, "No such process", p)      # what read(2) of a vanished /proc file gives
+        elif f == "zombie" and own and not self.gone:
             shutil.rmtree(self.prefix, ignore_errors=True)
             c03_tree(self.root, state=b"Z")
         elif f == "deny":
@@ -1281,9 +1299,50 @@ class FaultInjector:
         real_exists, real_lexists = os.path.exists, os.path.lexists
         inj = self
 
+        class ReadFaults:
+            """file object whose first read can be hit by a fault (the kernel checks the task again at read time)"""
+
+            def __init__(self, f, path):
+                self._f, self._path, self._hit = f, path, False
+
+            def _once(self):
+                if not self._hit:
+                    self._hit = True
+                    inj.hit(self._path, reading=True)
+
+            def read(self, *a):
+                self._once()
+                return self._f.read(*a)
+
+            def readline(self, *a):
+                self._once()
+                return self._f.readline(*a)
+
+            def readlines(self, *a):
+                self._once()
+                return self._f.readlines(*a)
+
+            def __iter__(self):
+                self._once()
+                return iter(self._f)
+
+            def __enter__(self):
+                self._f.__enter__()
+                return self
+
+            def __exit__(self, *a):
+                return self._f.__exit__(*a)
+
+            def __getattr__(self, name):
+                return getattr(self._f, name)
+
         def f_open(file, *a, **k):
             if isinstance(file, (str, bytes)):
                 inj.hit(file)
+                f = real_open(file, *a, **k)
+                if os.fsdecode(file).startswith(inj.root + os.sep) and inj._pid_dir(os.fsdecode(file))[0] is not None:
+                    return ReadFaults(f, file)
+                return f
             return real_open(file, *a, **k)
 
         def f_readlink(path, *a, **k):
@@ -1373,7 +1432,7 @@ def c03_faults(model, meta):
                 res, exc = c03_call(p, method), None
             except ok_exc as e:
                 res, exc = None, e
-                if method != "process_iter_attrs" and e.pid != C03_PID:
+                if method != "process_iter_attrs" and e.pid != C03_PID and e.pid not in inj.touched_pids:
                     problems.append(f"{method}: {type(e).__name__} carries pid {e.pid!r}")
                 if type(e) is psutil.NoSuchProcess and not inj.gone and os.path.exists(inj.prefix + "/stat"):
                     if "deny" in plan.values() and getattr(p, "_pid_reused", False):
@@ -1384,6 +1443,18 @@ def c03_faults(model, meta):
             except BaseException as e:  # noqa: BLE001
                 res, exc = None, e
                 problems.append(f"{method}: leaked {type(e).__name__}: {e}")
+            def bad_value(v, depth=0):
+                if isinstance(v, BaseException):
+                    return True
+                if depth < 3 and isinstance(v, dict):
+                    return any(bad_value(x, depth + 1) for x in v.values())
+                if depth < 3 and isinstance(v, (list, tuple)):
+                    return any(bad_value(x, depth + 1) for x in v)
+                if depth < 3 and hasattr(v, "info") and isinstance(getattr(v, "info", None), dict):
+                    return bad_value(v.info, depth + 1)
+                return False
+            if exc is None and bad_value(res):
+                problems.append(f"{method}: an exception object was returned as a value: {res!r}"[:200])
             n_accesses = inj.k
             # once the process is gone every later query raises NoSuchProcess
             if inj.gone and method not in ("is_running", "process_iter_attrs"):
@@ -1424,7 +1495,7 @@ def c03_faults_search(meta, seed, budget):
     rng = random.Random(seed)
     cases = []
     for m in C03_METHODS:
-        for k in range(0, 14):
+        for k in range(0, 26):          # opens AND first reads are access points
             for f in ("vanish", "deny", "zombie"):
                 cases.append({"method": m, "plan": {str(k): f}})
         for st in ("Z",):
